@@ -239,8 +239,16 @@ fn check(case: &Case, st: &mut Stats) -> Vec<Violation> {
         if !c.accepted || !c.judged { continue; }
         let a = c.addr.unwrap();
         model.accept(a, s.t_us);
-        let Some(car) = carried(l) else { continue };
+        let Some(mut car) = carried(l) else { continue };
         let frame = c.frame.as_ref().unwrap();
+        // plain 25-ft altitude codes are decoded independently (C05's formula): the carried value, and in
+        // particular "no valid value" for codes below 0 ft, does not rest on the decoder's own word there
+        let indep = match c.df {
+            4 | 20 => modes::alt_of_ac13_q1(modes::get_bits(frame, 20, 32)),
+            17 if (9..=18).contains(&car.tc) => modes::alt_of_ac12_q1(modes::get_bits(frame, 41, 52)),
+            _ => None,
+        };
+        if let Some(a) = indep { if car.altitude != a { st.probe("altitude_decoder_disagrees_with_reference"); } car.altitude = a; }
         st.oracle_evals += 1;
         // other aircraft: nothing changes (expired rows may go)
         for (k, rb) in before.iter() {
